@@ -129,6 +129,6 @@ Example double_fault_levels :
   pools (run (init 1 (Some [4]) [4]) (double_fault ++ [RunGb; RunGb; Step 0; Step 0])) = [[4]; [0]; [0]].
 Proof. vm_compute. auto. Qed.
 Example single_fault_levels :
-  pools (run (init 1 (Some [4]) [4]) single_fault) = [[1]; [-1]; [0]] /\
-  pools (run (init 1 (Some [4]) [4]) (single_fault ++ [RunGb; RunGb; Step 0; Step 0])) = [[4]; [0]; [0]].
+  pools (run (init 1 (Some [4]) [4]) single_fault) = [[1]; [-1]; []] /\
+  pools (run (init 1 (Some [4]) [4]) (single_fault ++ [RunGb; RunGb; Step 0; Step 0])) = [[4]; [0]; []].
 Proof. vm_compute. auto. Qed.
